@@ -6,6 +6,7 @@ import time
 
 VERIF = os.path.dirname(os.path.dirname(os.path.abspath(__file__)))
 KNOWN_FILE = os.path.join(VERIF, "known_findings.jsonl")
+OUT = os.environ.get("SA_OUT", VERIF)     # self-validation sub-runs write their evidence/replay elsewhere
 
 
 class Ob:
@@ -83,7 +84,7 @@ def finish(prop, tier, obs, floors, info, t0, explanation, trusted, selfval=None
             continue
         seen.add(o.key)
         print("KNOWN-FINDING: property=%s %s :: %s (%s at %s)" % (prop, o.key, known_keys[o.key].get("what", o.msg), o.rule, o.loc))
-    replay_dir = os.path.join(VERIF, "replay", prop)
+    replay_dir = os.path.join(OUT, "replay", prop)
     for o in viol:
         os.makedirs(replay_dir, exist_ok=True)
         path = os.path.join(replay_dir, key_hash(o.key) + ".json")
@@ -114,8 +115,8 @@ def finish(prop, tier, obs, floors, info, t0, explanation, trusted, selfval=None
         cov.update(extra_cov)
     ev = {"property_id": prop, "tier": tier, "seed": int(os.environ.get("VERIF_SEED", "0") or 0), "level": "other",
           "coverage": cov, "assumptions": trusted, "wall_s": round(time.time() - t0, 3), "violations": len(viol)}
-    os.makedirs(os.path.join(VERIF, "evidence"), exist_ok=True)
-    with open(os.path.join(VERIF, "evidence", prop + ".json"), "w") as fh:
+    os.makedirs(os.path.join(OUT, "evidence"), exist_ok=True)
+    with open(os.path.join(OUT, "evidence", prop + ".json"), "w") as fh:
         json.dump(ev, fh, indent=1, default=str)
     print("[%s] %d obligations, %d discharged, %d known findings, %d notes, %d violations (%.2fs)" % (
         prop, len(obs), len(okobs), len(seen), len(notes), len(viol), time.time() - t0))
